@@ -1,0 +1,70 @@
+//go:build verif
+
+// Verification hooks (build tag "verif"): thin exported wrappers around unexported
+// identifiers, used by the /verif harness. Add-only; with the tag off nothing changes.
+
+package fclient
+
+import (
+	"context"
+	"net"
+	"syscall"
+	"time"
+)
+
+// VerifAllowDenyControl exposes the dialer control function built by allowDenyNetworksControl.
+func VerifAllowDenyControl(allow, deny []string) func(ctx context.Context, network, address string, c syscall.RawConn) error {
+	return allowDenyNetworksControl(allow, deny)
+}
+
+// VerifIsAllowed exposes isAllowed.
+func VerifIsAllowed(ip net.IP, allow, deny []string) bool { return isAllowed(ip, allow, deny) }
+
+// VerifInRange exposes inRange.
+func VerifInRange(ip net.IP, cidrs []string) bool { return inRange(ip, cidrs) }
+
+// VerifResolver is the resolver interface a DNSCache uses.
+type VerifResolver interface {
+	LookupIPAddr(context.Context, string) ([]net.IPAddr, error)
+}
+
+// VerifNewDNSCache builds a DNSCache with a scripted resolver.
+func VerifNewDNSCache(size int, duration time.Duration, r VerifResolver) *DNSCache {
+	c := NewDNSCache(size, duration, nil, nil)
+	c.resolver = r
+	return c
+}
+
+// VerifLookup exposes DNSCache.lookup: addresses, expiry, whether served from cache, whether found.
+func (c *DNSCache) VerifLookup(ctx context.Context, name string) (addrs []net.IPAddr, expires time.Time, cached bool, ok bool) {
+	e, cached := c.lookup(ctx, name)
+	if e == nil {
+		return nil, time.Time{}, cached, false
+	}
+	return e.addrs, e.expires, cached, true
+}
+
+// VerifEntry is a snapshot of one cache entry.
+type VerifEntry struct {
+	Addrs   []net.IPAddr
+	Expires time.Time
+}
+
+// VerifEntries returns a snapshot of the cache map, taken under the cache mutex.
+func (c *DNSCache) VerifEntries() map[string]VerifEntry {
+	c.mutex.Lock()
+	defer c.mutex.Unlock()
+	out := make(map[string]VerifEntry, len(c.entries))
+	for k, v := range c.entries {
+		out[k] = VerifEntry{Addrs: v.addrs, Expires: v.expires}
+	}
+	return out
+}
+
+// VerifDelete removes an entry under the cache mutex (what DialContext does when every cached
+// address failed to connect).
+func (c *DNSCache) VerifDelete(name string) {
+	c.mutex.Lock()
+	delete(c.entries, name)
+	c.mutex.Unlock()
+}
